@@ -125,6 +125,15 @@ func (l *Live) BufferIntact() bool { return l.Buf == nil || bytes.Equal(l.Buf, l
 // that ToArray is strictly increasing (an unordered list is reported as an error).
 func SetOf(b *roaring.Bitmap) (*model.Set, error) {
 	card := b.GetCardinality()
+	if card > 30000 {
+		// large sets: independent decode of the portable bytes (intervals, no element
+		// list); falls through to ToArray when the bitmap cannot be serialized
+		if by, err := b.ToBytes(); err == nil {
+			if ch, _, err := spec.DecodePortable(by, false); err == nil {
+				return spec.SetOf(ch), nil
+			}
+		}
+	}
 	if card <= 3<<20 {
 		arr := b.ToArray()
 		if uint64(len(arr)) != card {
@@ -143,16 +152,13 @@ func SetOf(b *roaring.Bitmap) (*model.Set, error) {
 		}
 		return model.FromIntervals(ivs), nil
 	}
-	// big sets: independent decode of the portable bytes
-	by, err := b.ToBytes()
-	if err != nil {
-		return nil, fmt.Errorf("ToBytes: %v", err)
+	// very large set that cannot be serialized (a malformed container: C09's business):
+	// fall back to the library's own range iteration
+	var ivs []model.Iv
+	for s, e := range b.Ranges() {
+		ivs = append(ivs, model.Iv{Lo: uint64(s), Hi: e - 1})
 	}
-	ch, _, err := spec.DecodePortable(by, false)
-	if err != nil {
-		return nil, fmt.Errorf("independent decode of ToBytes: %v", err)
-	}
-	return spec.SetOf(ch), nil
+	return model.FromIntervals(ivs), nil
 }
 
 // Check compares a live bitmap with the model; returns "" if equal.
